@@ -160,6 +160,8 @@ static void run_case(vf_case *c) {
 
 /* ---------------------------------------------------------------- enumeration */
 static vf_case K;
+/* states = configurations dispatched: candidate elements for the predicates, (base, scalar(s)) for the exponentiations */
+#define vf_run(KP) do { vf_stat_add("states", 1); (vf_run)(KP); } while (0)
 static void setp1(int i, const rpt *p) { if (p->inf) { mpz_set_si(K.v[i], -1); mpz_set_ui(K.v[i + 1], 0); } else { mpz_set(K.v[i], p->x); mpz_set(K.v[i + 1], p->y); } }
 static void setp2(int i, const rpt2 *p) { if (p->inf) { mpz_set_si(K.v[i], -1); mpz_set_ui(K.v[i + 1], 0); } else { f2_pack(K.v[i], &p->x); f2_pack(K.v[i + 1], &p->y); } }
 static void scalar_alphabet(vf_dom *d, int small) {
